@@ -12,7 +12,7 @@ import os
 import string
 
 from ..engine.srcmodel import AnalysisError, Unfoldable, dotted, stmt_text, walk_local
-from ..engine.report import RuleResult
+from ..engine.report import RuleResult, Finding
 from .common import finding
 from .rounding import builtin_round_sites, bound_symbols, half_up_helper
 from .c08_sequences import positional_args_rounded
@@ -34,6 +34,125 @@ def _merge(iv: list[tuple[int, int]]) -> list[tuple[int, int]]:
         else:
             out.append((lo, hi))
     return out
+
+
+def _bound_funcs(ctx, symbol: str) -> list:
+    out = []
+    for rec in ctx.reg.all_records():
+        if rec.symbol == symbol:
+            ref = rec.method('evaluate')
+            if ref is not None and ref.func is not None and ref.origin != 'class' \
+                    and ref.func not in out:
+                out.append(ref.func)
+    return out
+
+
+def r09_4(ctx, counts) -> RuleResult:
+    res = RuleResult(
+        'R09.4', 'TRANSLATE-FIRST-OCCURRENCE',
+        'fn:translate: "if a character occurs more than once in $mapString, the first occurrence '
+        'determines the replacement". str.maketrans(map, trans) and dict(zip(map, trans)) keep the '
+        'LAST occurrence. In the function bound to translate the character table is therefore '
+        'not built by maketrans/dict/zip directly from the evaluated map string: it is filled by '
+        'a loop whose store is guarded by a `not in <table>` test (or setdefault).')
+    funcs = _bound_funcs(ctx, 'translate')
+    if not funcs:
+        raise AnalysisError('function bound to fn:translate not located')
+    n = 0
+    for f in funcs:
+        n += 1
+        bad = [c for c in walk_local(f.node) if isinstance(c, ast.Call) and (
+            dotted(c.func).split('.')[-1] == 'maketrans' or
+            (dotted(c.func) == 'dict' and c.args and isinstance(c.args[0], ast.Call)
+             and dotted(c.args[0].func) == 'zip'))]
+        comp = [c for c in walk_local(f.node) if isinstance(c, ast.DictComp)]
+        guarded = any(isinstance(x, ast.Compare) and isinstance(x.ops[0], ast.NotIn)
+                      for x in walk_local(f.node)) or any(
+            isinstance(c, ast.Call) and isinstance(c.func, ast.Attribute)
+            and c.func.attr == 'setdefault' for c in walk_local(f.node))
+        res.instances.append(f'{f.key}: maketrans/dict(zip) calls={len(bad)} dict '
+                             f'comprehensions={len(comp)} first-occurrence guard={guarded}')
+        if bad or comp:
+            x = (bad or comp)[0]
+            res.fail(finding('R09.4', f, x, 'last occurrence wins',
+                             f'`{stmt_text(x)[:60]}` builds the translation table with dict '
+                             f'semantics: a character repeated in the map string gets its LAST '
+                             f'replacement (translate("abc", "aa", "xy") gives "ybc", F&O and '
+                             f'libxml2: "xbc")'))
+        elif not guarded:
+            raise AnalysisError(f'{f.key}: no recognised construction of the translation table')
+        else:
+            res.ok()
+    counts['translate_impls'] = n
+    return res
+
+
+XML_WS = {' ', '\t', '\n', '\r'}
+
+
+def r09_5(ctx, counts) -> RuleResult:
+    import re as _re
+    model = ctx.model
+    res = RuleResult(
+        'R09.5', 'XML-WHITESPACE-ONLY',
+        'In XPath and XSD "whitespace" is the four characters #x20 #x9 #xA #xD. Python\'s '
+        'str.split()/strip() without arguments and the regex classes \\s and \\S follow '
+        'str.isspace(): they also treat U+0085, U+00A0, U+2003, U+3000 … as separators. (a) In '
+        'the function bound to fn:normalize-space no argument-less split()/strip() is applied '
+        'to the argument; (b) the patterns behind helpers.collapse_white_spaces and the '
+        'replace/collapse facets (Patterns.whitespaces, Patterns.normalize, the lexical pattern '
+        'of xs:token) name the four characters explicitly — a class built on \\s or \\S is a '
+        'violation (normalize-space("a&#x2003;b") must keep the EM SPACE).')
+    n = 0
+    for f in _bound_funcs(ctx, 'normalize-space'):
+        n += 1
+        bad = [c for c in walk_local(f.node) if isinstance(c, ast.Call)
+               and isinstance(c.func, ast.Attribute) and c.func.attr in ('split', 'strip')
+               and not c.args and not c.keywords]
+        res.instances.append(f'{f.key}: argument-less split()/strip() calls={len(bad)}')
+        if bad:
+            res.fail(finding('R09.5', f, bad[0], 'Python whitespace in normalize-space',
+                             f'`{stmt_text(bad[0])[:50]}` separates on every str.isspace() '
+                             f'character: normalize-space("&#xA0;a&#xA0;") returns "a"'))
+        else:
+            res.ok()
+    if not n:
+        raise AnalysisError('function bound to fn:normalize-space not located')
+    # (b) the facet patterns
+    pats: list[tuple[str, object, ast.AST, str]] = []
+    helpers = model.modules.get('elementpath.helpers')
+    if helpers is None:
+        raise AnalysisError('elementpath/helpers.py vanished')
+    pcls = helpers.classes.get('Patterns')
+    if pcls is None:
+        raise AnalysisError('helpers.Patterns vanished')
+    for name in ('whitespaces', 'normalize'):
+        e = pcls.attrs.get(name)
+        if e is None:
+            raise AnalysisError(f'helpers.Patterns.{name} vanished')
+        pats.append((f'Patterns.{name}', helpers, e, name))
+    tok = model.find_class('XsdToken')
+    if 'pattern' in tok.attrs:
+        pats.append(('XsdToken.pattern', tok.module, tok.attrs['pattern'], 'token'))
+    for label, mod, e, _ in pats:
+        lits = [c.value for c in ast.walk(e) if isinstance(c, ast.Constant)
+                and isinstance(c.value, str)]
+        if not lits:
+            raise AnalysisError(f'{label}: pattern literal not found')
+        n += 1
+        text = lits[0]
+        uses_s = _re.search(r'\\[sS]', text) is not None
+        res.instances.append(f'{label} = {text!r}: uses \\s/\\S={uses_s}')
+        if uses_s:
+            res.fail(Finding('R09.5', mod.relpath, '<module>', f'{label} uses \\s',   # type: ignore
+                             f'{label} = {text!r} is built on the regex class \\s/\\S, which '
+                             f'follows str.isspace(): U+2003, U+3000, U+0085 … are collapsed or '
+                             f'rejected as if they were XML whitespace (xs:token("a&#x2003;b"))',
+                             getattr(e, 'lineno', 0)))
+        else:
+            res.ok()
+    counts['whitespace_sites'] = n
+    return res
 
 
 def r09_3(ctx, counts) -> RuleResult:
@@ -223,7 +342,8 @@ def run(ctx) -> dict:
             r2.ok()
     counts['uri_functions'] = n
     return {
-        'results': [r1, r2, r09_3(ctx, counts)], 'counts': counts,
+        'results': [r1, r2, r09_3(ctx, counts), r09_4(ctx, counts), r09_5(ctx, counts)],
+        'counts': counts,
         'explanation':
             'Decided statically: fn:substring rounds its start/length half up (through the '
             'repository\'s round_number helper, never the builtin round()); the three URI '
